@@ -196,7 +196,7 @@ structure FlagsTrue (f : TFlags) : Prop where
 
 theorem flagsTrue {f : TFlags} (h : f.sound = true) : FlagsTrue f := by
   simp only [TFlags.sound, Bool.and_eq_true] at h
-  obtain ⟨⟨⟨⟨⟨⟨⟨⟨⟨⟨⟨⟨⟨⟨⟨⟨⟨h1, h2⟩, h3⟩, h4⟩, h5⟩, h6⟩, h7⟩, h8⟩, h9⟩, h10⟩, h11⟩, h12⟩, h13⟩, _⟩, _⟩, _⟩, h17⟩, _⟩ := h
+  obtain ⟨⟨⟨⟨⟨⟨⟨⟨⟨⟨⟨⟨⟨h1, h2⟩, h3⟩, h4⟩, h5⟩, h6⟩, h7⟩, h8⟩, h9⟩, h10⟩, h11⟩, h12⟩, h13⟩, h17⟩ := h
   exact ⟨h1, h2, h3, h4, h5, h6, h7, h8, h9, h10, h11, h12, h13, h17⟩
 
 /-! ### more building blocks: ChangeCipherSpec and Finished on a tail -/
